@@ -48,7 +48,10 @@ func genSessionOps(rng *RNG, c nwCfg, n int, nkeys int, farFuture bool) []wop {
 	maxTs := t
 	// one history in three uses the NULL group (90: nil / missing) and the empty string (91) as keys
 	keyNames := []string{"1", "2", "3"}
-	if rng.Intn(3) == 0 {
+	if rng.Intn(5) == 0 {
+		// float64 keys equal as float32
+		keyNames = [][]string{{"92", "93", "94"}, {"93", "92", "1"}, {"92", "2", "93"}}[rng.Intn(3)]
+	} else if rng.Intn(3) == 0 {
 		keyNames = [][]string{{"90", "2", "3"}, {"90", "91", "3"}, {"1", "90", "91"}}[rng.Intn(3)]
 		if nkeys == 1 {
 			keyNames = []string{[]string{"90", "91"}[rng.Intn(2)]}
